@@ -107,7 +107,59 @@ OUT_OF_SCOPE = {
 }
 
 
+def silence_previous_note(ctx, rule):
+  """Location-independent: split_note_sequence_on_silence walks the notes in start order (a stable sort by start_time).  If the
+  silence in front of a note is measured from the end of *one* earlier note - the previous one in that order - then among notes
+  that start together the one stored last is "the previous note", and with different lengths the split points depend on the
+  storage order.  Measured from a running maximum of the ends (order-insensitive reduction) they do not.  Not raised when the
+  sort key also orders by end_time (then the previous note is determined by the values alone)."""
+  fi = ctx.func('sequences_lib:split_note_sequence_on_silence')
+  fn = fi.node
+  loopvars = set()
+  for n in ast.walk(fn):
+    if isinstance(n, (ast.For, ast.comprehension)):
+      loopvars.update(x.id for x in ast.walk(n.target) if isinstance(x, ast.Name))
+  keyed_by_end = any(isinstance(c, ast.Call) and dotted(c.func) in ('sorted',) or (isinstance(c, ast.Call) and isinstance(c.func, ast.Attribute) and c.func.attr == 'sort')
+                     for c in ast.walk(fn)) and any(isinstance(k, ast.keyword) and k.arg == 'key' and any(isinstance(x, ast.Attribute) and x.attr == 'end_time' for x in ast.walk(k.value))
+                                                    for c in ast.walk(fn) if isinstance(c, ast.Call) for k in c.keywords)
+  # loop variables that stand for the end of one note: bound (directly or through zip) to a collection of `x.end_time` values
+  end_vars = set()
+  for nd in ast.walk(fn):
+    gens = [(nd.target, nd.iter)] if isinstance(nd, ast.For) else [(g.target, g.iter) for g in getattr(nd, 'generators', [])]
+    for tg, it in gens:
+      pairs = [(tg, it)]
+      if isinstance(it, ast.Call) and dotted(it.func) == 'zip' and isinstance(tg, ast.Tuple) and len(tg.elts) == len(it.args):
+        pairs = list(zip(tg.elts, it.args))
+      for t_, src in pairs:
+        if not isinstance(t_, ast.Name):
+          continue
+        srcx = U.expand_locals(fn, src, at=nd)
+        if any(isinstance(m, (ast.ListComp, ast.GeneratorExp)) and isinstance(m.elt, ast.Attribute) and m.elt.attr == 'end_time' for m in ast.walk(srcx)):
+          end_vars.add(t_.id)
+  n = 0
+  for c in ast.walk(fn):
+    if not isinstance(c, ast.Compare):
+      continue
+    ex = U.expand_locals(fn, c, at=c)
+    comps = set(id(x) for m in ast.walk(ex) if isinstance(m, (ast.ListComp, ast.GeneratorExp, ast.SetComp, ast.DictComp)) for x in ast.walk(m))
+    if not any(isinstance(x, ast.Name) and x.id == 'gap_seconds' and id(x) not in comps for x in ast.walk(ex)):
+      continue        # gap_seconds only inside a collection this comparison measures (its own filter is judged where it stands)
+    n += 1
+    inside_max = set(id(x) for m in ast.walk(ex) if isinstance(m, ast.Call) and dotted(m.func) == 'max' for x in ast.walk(m))
+    single = [x for x in ast.walk(ex) if id(x) not in inside_max and (
+        (isinstance(x, ast.Attribute) and x.attr == 'end_time' and isinstance(x.value, ast.Name) and x.value.id in loopvars) or (isinstance(x, ast.Name) and x.id in end_vars))]
+    ok = not single or keyed_by_end
+    ctx.ob(rule, fi, c, ok, 'the gap test reads no single note\'s end (or ties are ordered by end_time)' if ok else
+           'the gap test %s measures the silence from %s, the end of the one note that precedes in start order; the sort is stable and keyed by start_time only, so among notes that '
+           'start together the one stored last is that note: with different lengths the split points depend on the storage order' % (norm_text(c), norm_text(single[0])),
+           construct='silence is measured from an order-insensitive reduction of the earlier ends', definite=True)
+  if n == 0:
+    why = 'cannot classify: no comparison with gap_seconds found in split_note_sequence_on_silence'
+    ctx.ob(rule, fi, fn, False, why, construct='silence is measured from an order-insensitive reduction of the earlier ends', unknown=why)
+
+
 def run(ctx):
+  silence_previous_note(ctx, 'ORD/ties/silence-previous-note')
   scope_fq = set(f for f, _p in SCOPE)
   # fail closed: unclassified functions that traverse permutable fields
   for m in SCOPE_MODULES:
